@@ -344,6 +344,29 @@ def shard_qubit_row_near_miss(arg):
     return rep
 
 
+def shard_dense_perturbations(arg):
+    """random stabilizers (group of a random 40-gate Clifford circuit, densely mixed generators) with one or two bits of the
+    X/Z matrices flipped: the bulk of 'typo' inputs, in the natural distribution over LC classes"""
+    n, count, seed, sid, deadline = arg
+    rep = fw.Report()
+    cfgs = sweep.configs(n)
+    full = (1 << n) - 1
+    for i in range(count):
+        if deadline and i % 50 == 0 and time.time() > deadline:
+            rep.truncated = True
+            break
+        rng = fw.rng_for("c08d", seed, n, sid, i)
+        gens = members.group_of_circuit(n, members.random_clifford_ops(n, rng, 40))
+        gens = [list(g) for g in members.random_basis_change(gens, rng, steps=3 * n)]
+        for _ in range(rng.choice([1, 1, 2])):
+            j = rng.randrange(n)
+            gens[j][rng.choice([1, 2])] ^= 1 << rng.randrange(n)
+        fmt = ["matrices+phases", "strings", "matrices"][i % 3]
+        run_ops(rep, {"n": n, "connectivity": cfgs[i % len(cfgs)], "gens": gens, "format": fmt, "distribution": "dense-perturbation"},
+                sample=(i == 5))
+    return rep
+
+
 # ---- malformed string lists ---------------------------------------------------------------------
 
 def shard_lists(arg):
@@ -482,7 +505,8 @@ def shard(arg):
     kind = arg[0]
     libif.limit_memory(6)
     return {"matrices": shard_matrices, "hyp": shard_hyp, "lists": shard_lists, "entries": shard_entries,
-            "table-near-miss": shard_table_near_miss, "qubit-row": shard_qubit_row_near_miss}[kind](arg[1:])
+            "table-near-miss": shard_table_near_miss, "qubit-row": shard_qubit_row_near_miss,
+            "dense-perturbation": shard_dense_perturbations}[kind](arg[1:])
 
 
 def run(ctx):
@@ -501,6 +525,9 @@ def run(ctx):
             args.append(("matrices", 3, ["range", [lo, lo + step]], 1, "all", ctx.seed, dl))
     for i in range(16):
         args.append(("hyp", ctx.seed * 1000 + i, 60 if q else 1500, dl))
+    for n, total in ((4, 2000), (5, 6400), (6, 1600)):
+        for sid in range(16):
+            args.append(("dense-perturbation", n, (total if q else total * 10) // 16, ctx.seed, sid, dl))
     kc = {2: 2, 3: 5, 4: 18, 5: 93, 6: 760}
     for (n, name) in coupling.CONFIGS:
         stride = 1 if n <= 4 else ((4 if n == 5 else 40) if q else (1 if n == 5 else 4))
